@@ -102,6 +102,7 @@ class Worker:
         if os.path.exists(self.progress):
             os.remove(self.progress)
         env = base_env()
+        env["RUST_BACKTRACE"] = "0"
         env.update(phase.get("env", {}))
         self.cmd = cmd
         self.t0 = time.time()
@@ -120,9 +121,12 @@ class Worker:
 
     def stderr_tail(self, n=600):
         try:
-            self.stderr_f.flush()
+            if not self.stderr_f.closed:
+                self.stderr_f.flush()
             d = open(self.stderr_path, "rb").read()
-            return d[-n:].decode("utf-8", "replace")
+            if len(d) > 2 * n:
+                d = d[:n] + b"\n[...]\n" + d[-n:]
+            return d.decode("utf-8", "replace")
         except OSError:
             return ""
 
